@@ -535,3 +535,61 @@ pub fn repair_from<R: Read>(src: R, cfg: &Cfg, authenticated: bool) -> Result<Re
 pub fn quiet_panics() {
     if std::env::var("VERIF_LOUD").is_err() { std::panic::set_hook(Box::new(|_| {})); }
 }
+
+// ---------------------------------------------------------------------------------------------
+// Reference streaming decode of brotli (the `brotli` crate called directly)
+
+/// decode the FIRST brotli stream found at the start of `s`, feeding everything and draining all
+/// output: (plaintext decodable, bytes consumed if the stream ended, invalid)
+pub fn ref_stream_decode(s: &[u8]) -> (Vec<u8>, Option<usize>, bool) {
+    use brotli::{BrotliDecompressStream, BrotliResult, BrotliState};
+    use brotli::writer::StandardAlloc;
+    let mut st = BrotliState::new(StandardAlloc::default(), StandardAlloc::default(), StandardAlloc::default());
+    let mut out = Vec::new();
+    let mut buf = vec![0u8; 1 << 16];
+    let mut in_off = 0usize;
+    let mut avail_in = s.len();
+    let mut idle = 0;
+    loop {
+        let mut avail_out = buf.len();
+        let mut out_off = 0usize;
+        let mut written = 0usize;
+        let before_in = in_off;
+        let r = BrotliDecompressStream(&mut avail_in, &mut in_off, s, &mut avail_out, &mut out_off, &mut buf, &mut written, &mut st);
+        out.extend_from_slice(&buf[..out_off]);
+        match r {
+            BrotliResult::ResultSuccess => return (out, Some(in_off), false),
+            BrotliResult::ResultFailure => return (out, None, true),
+            BrotliResult::NeedsMoreOutput => {}
+            BrotliResult::NeedsMoreInput => {
+                if out_off == 0 && in_off == before_in {
+                    idle += 1;
+                    if idle > 1 { return (out, None, false); }
+                }
+            }
+        }
+        if out.len() > (64 << 20) { return (out, None, true); }
+    }
+}
+
+/// the chain of streams the fail-safe decompressor meets in `c`: entries keyed by the length of the
+/// remaining input
+pub fn ref_stream_table(c: &[u8]) -> Vec<serde_json::Value> {
+    let mut v = vec![];
+    let mut s = c;
+    for _ in 0..4096 {
+        if s.is_empty() { break; }
+        let (out, used, bad) = ref_stream_decode(s);
+        match used {
+            Some(k) if k > 0 && !bad => {
+                v.push(serde_json::json!({"len": s.len(), "out": hx(&out), "rest": s.len() - k, "bad": false}));
+                s = &s[k..];
+            }
+            _ => {
+                v.push(serde_json::json!({"len": s.len(), "out": hx(&out), "bad": bad}));
+                break;
+            }
+        }
+    }
+    v
+}
